@@ -11,6 +11,12 @@ CHECKS = {
    design_ref="DESIGN.md section 6 C05",
    note="Trusted: chunks enter through PeerConnection.add_in_bytes; misaligned heads are modelled as arbitrary length/decode outcome; the progress measure is header parses per dequeued chunk and buffer length.",
    technique="TLA+ model of the framing loop checked by TLC; real reader thread driven in a deterministic runtime, per-iteration traces validated against the spec by TLC"),
+ "C15": dict(
+   category="model_checking",
+   text="TLC checks WriteBuf.tla (PlusCal; queuers, the writer thread and the I/O loop's send branch at source-line grain, the `+=` of the write buffer split into load / as_bytes() call / store) exhaustively for several plans (1-3 queuers, 2-6 messages incl. an unencodable one), every partial-write pattern and every interleaving: accepted bytes are always a prefix of, and finally equal to, the concatenation of the encodable messages in queueing order; variants without either lock must violate it. A real Node with a READY connection then runs the real writer thread and I/O loop with 1-3 virtual queueing threads under every schedule with <= 2 (thorough 3) preemptions at those source lines, with scripted partial writes and EAGAIN/EINTR/ENOBUFS; the socket's byte log is compared with the queueing order and every distinct execution is validated by TLC as a trace of WriteBuf.",
+   design_ref="DESIGN.md section 6 C15",
+   note="Trusted: thread switches happen at the studied source lines, the as_bytes() call boundary and blocking primitives (not at arbitrary bytecodes); the full preemption bound is applied to plans of 2-3 messages, larger plans use bound 1-2 with a run cap (reported as evaluations).",
+   technique="PlusCal/TLA+ model checked by TLC + bounded exhaustive schedule enumeration of the real node code, traces validated against the spec by TLC"),
  "C16": dict(
    category="model_checking",
    text="TLC checks SeqGen.tla (PlusCal, one label per source line of next_sequence/next_id) exhaustively for 2-3 callers x 1-3 draws x every start value: identifiers distinct, non-zero, consecutive, MAX -> 1; an unlocked variant must violate it (vacuity guard). The real generators are then run under every thread schedule with <= 2 (thorough: 3) preemptions at source-line grain inside a deterministic runtime; the property is evaluated on the values handed out and every distinct execution is validated by TLC as a trace of SeqGen. Full-width arithmetic (10^5 successive draws across the 32/64-bit wrap, the end-to-end initial value for all 4096 start-time residues, session id text) is compared with SeqArith.tla evaluated by TLC.",
